@@ -157,7 +157,8 @@ def gen_prog(rng, n_ops, profile, mfs):
                 if rng.random() < 0.3:
                     op['expire_time'] = True
         else:
-            op = {'op': 'advance', 'dt': rng.choice((0, 1e-9, 0.5, 1, 1, 4, 5, 6, 60, 1e6))}
+            # the wall clock may also be set BACK (an NTP step, a manual correction); every call goes by the clock as it reads then
+            op = {'op': 'advance', 'dt': rng.choice((0, 1e-9, 0.5, 1, 1, 4, 5, 6, 60, 1e6, -0.5, -3, -30))}
         prog.append(op)
     return prog
 
